@@ -94,9 +94,16 @@ class AnnGen:
                 for m in self.related():
                     if m not in ms:
                         ms.append(m)
-            while len(ms) < k:
+            def same_member(a, b):
+                # typing drops a union member that equals an earlier one, and Literal objects are equal when their
+                # value SETS are (Literal['ab', 2.5] == Literal[2.5, 'ab']): such a pair is one member
+                return a == b or (a[0] == "literal" and b[0] == "literal" and sorted(a[1]) == sorted(b[1]))
+
+            tries = 0
+            while len(ms) < k and tries < 50:
+                tries += 1
                 m = self.member(depth - 1)
-                if m not in ms:
+                if not any(same_member(m, x) for x in ms):
                     ms.append(m)
             return [rng.choice(["unionT", "pipe", "tup"]), ms]
         if r < 0.5:
